@@ -102,6 +102,10 @@ def run_migration(ctx, files, faults, label):
         fs.observed.append(('converted', a[0]))
         return ('CONV',)
     sp.models['load_merchant_rules'] = Func(m_load)
+    # get_all_rules(path) swallows the loader's errors: for a file the user wrote by hand it answers with rules, or with none (a typo, groundwork without
+    # a rule yet) - either way the file is the user's work
+    sp.models['get_all_rules'] = Func(lambda I_, a, k, n: [] if I_.ctx.choose(2, 'get_all_rules(%s).is_empty' % (a[0].split('/')[-1] if a and isinstance(a[0], str) else '?'))
+                                      else [Obj(I_.fresh('rule', ObjS), 'rule')])
     sp.models['csv_to_merchants_content'] = Func(m_convert)
     sp.models['len'] = Func(lambda I_, a, k, n: Untracked())
     sp.models['os.path.join'] = Func(lambda I_, a, k, n: '/'.join(a))
@@ -126,8 +130,17 @@ def run_migration(ctx, files, faults, label):
             boundary('created:' + path.split('/')[-1])
         elif mode == 'r' and path not in fs.files:
             raise PyRaise('FileNotFoundError', (), 'open')
-        return ('noop_ctx', Obj(I_.fresh('file', ObjS), 'file:%s:%s' % (path, mode)))
+        return ('ctx', Obj(I_.fresh('file', ObjS), 'file:%s:%s' % (path, mode)), lambda: m_close_path(path))
     sp.models['open'] = Func(m_open)
+    # what write() hands over sits in a buffer until the file is closed: until then the file on disk holds any prefix of it (the in-flight states), and
+    # whatever is done to the file in between - renaming it over the settings, say - is done to that prefix
+    pending = {}
+
+    def m_close_path(path):
+        if path in pending:
+            fs.files[path] = pending.pop(path)
+            boundary('closed:' + path.split('/')[-1])
+    sp.models['method:Obj:*.close'] = Func(lambda I_, a, k, n: m_close_path(a[0].cls.split(':', 2)[1]))
 
     def m_write(I_, a, k, n):
         _, path, mode = a[0].cls.split(':', 2)
@@ -138,8 +151,7 @@ def run_migration(ctx, files, faults, label):
                 raise Unsupported('rules file written with something other than the converted content')
             fs.files[path] = ('conv', 'partial')
             boundary('partial_write:merchants.rules')
-            fs.files[path] = ('conv', 'full')
-            boundary('written:merchants.rules')
+            pending[path] = ('conv', 'full')
         elif path == SETTINGS and mode == 'a':
             is_key = isinstance(data, str) and data == KEYLINE
             cur = fs.files[path]
@@ -155,14 +167,12 @@ def run_migration(ctx, files, faults, label):
         elif path == TMP and mode == 'w' and isinstance(data, tuple) and data[:2] == ('CONTENT+WRONGKEY', SETTINGS) and data[2] is not None and data[2][0] == 'settings':
             fs.files[path] = ('settings', 'partial')
             boundary('partial_write:settings.tmp')
-            fs.files[path] = ('settings', 'wrong')           # names a file that does not exist: like a torn key, no rules and no fallback to the CSV
-            boundary('written:settings.tmp')
+            pending[path] = ('settings', 'wrong')            # names a file that does not exist: like a torn key, no rules and no fallback to the CSV
         elif path == TMP and mode == 'w' and isinstance(data, tuple) and data[:2] == ('CONTENT+KEY', SETTINGS) and data[2] is not None and data[2][0] == 'settings':
             # the whole new settings text goes into the temporary file: a torn write tears THAT file
             fs.files[path] = ('settings', 'partial')
             boundary('partial_write:settings.tmp')
-            fs.files[path] = ('settings', 'full')
-            boundary('written:settings.tmp')
+            pending[path] = ('settings', 'full')
         elif path == SETTINGS and isinstance(data, tuple) and data[:2] == ('CONTENT+', SETTINGS) and data[2] is not None:
             # the old content (plus a suffix without the key) written back: a torn write leaves a prefix of it
             boundary('partial_rewrite:settings.yaml')
